@@ -368,6 +368,8 @@ def discount_corpus():
     bases = []
     for op in ("ADD", "SUB", "MUL", "AND", "OR", "XOR", "SHL", "LT", "EQ", "DIV", "EXP"):
         bases += ["PUSH1 0x1 PUSH1 0x3 %s" % op, "PUSH1 0x3 PUSH1 0x1 %s" % op, "PUSH1 0x2 PUSH1 0x2 %s" % op]
+    bases += ["PUSH1 0x5 PUSH1 0x3 PUSH1 0x2 ADDMOD", "PUSH1 0x7 PUSH1 0x3 PUSH1 0x4 MULMOD", "PUSH1 0xed PUSH1 0x1f PUSH2 0x16f ADDMOD",
+              "SWAP2 ADDMOD PUSH1 0x5 PUSH1 0x3 PUSH1 0x2 ADDMOD"]
     bases += ["PUSH1 0x0 ADD", "PUSH1 0x1 MUL", "DUP1 XOR", "DUP1 SUB", "PUSH1 0x0 OR", "ISZERO ISZERO ISZERO", "PUSH1 0x1 PUSH1 0x3 ADD PUSH1 0x4 ADD",
               "PUSH1 0x1 PUSH1 0x3 SUB PUSH1 0x1 PUSH1 0x3 SUB ADD"]
     tails = ["DUP1 SWAP2", "DUP1 DUP1 SWAP3", "DUP1 SWAP2 SWAP1", "DUP1 DUP3 SWAP2 POP", "DUP1 DUP1 ADD SWAP1", "SWAP1 DUP2 SWAP2"]
